@@ -12,6 +12,14 @@ void yk_assume(bool c);
 void yk_watch(const void* p);                     // count hooked LOAD/STORE steps on one address
 std::uint32_t yk_watch_store_count(void);
 std::uint32_t yk_watch_load_count(void);
+// events emitted by the guarded hooks (0 RETIRE, 1 RECLAIM, 2 ENTER, 3 LEAVE), in program order
+std::uint32_t yk_event_count(void);
+std::uint32_t yk_event_kind(std::uint32_t i);
+const void* yk_event_ptr(std::uint32_t i);
+std::uint64_t yk_event_tag(std::uint32_t i);
+void yk_event_reset(void);
+std::int64_t yk_live_allocs(void);              // live blocks obtained through operator new (any variant)
+int yk_is_live(const void* p);                  // p is a block obtained through operator new and not yet deleted
 void yk_assert_at(bool c, std::uint32_t line);   // ll2c turns this into __CPROVER_assert(c, "yk:<line>")
 void yk_reach_at(std::uint32_t line);            // ... into __CPROVER_assert(0, "reach:<line>"): the vacuity witness, MUST fail
 }
